@@ -83,6 +83,8 @@ def _opts(h, tier):
     if tier == "thorough":
         o.oblig_timeout_ms = 180000
         o.branch_timeout_ms = 10000
+        o.crosscheck_mod = int(os.environ.get("VERIF_XCHECK_MOD", "50"))
+        o.crosscheck_seed = int(os.environ.get("VERIF_SEED", "0"))
     for k, v in h.opts.items():
         if isinstance(v, dict):
             v = v.get(tier)
@@ -147,7 +149,7 @@ def _replay(h, params, model, obligation):
 
     if model is None:
         return dict(reproduced=False, why="no model")
-    st, cc, exc = api.run_concrete(h.fn, params, model)
+    st, cc, exc = api.run_concrete(h.fn, params, model, tight=True)
     if st == "exception":
         return dict(reproduced=True, why="real code raised " + repr(exc)[:300])
     if st != "ok":
@@ -371,6 +373,14 @@ def run_property(pid: str, tier: str, only=None, verbose=False) -> int:
                             st[n] += 1
                         if n == "feasibility-unknown":
                             st["paths_ok_feasibility_unknown"] += 1
+                        if n.startswith("xcheck:"):
+                            a_, b_, c_, d_ = (int(v) for v in n.split(":")[1:])
+                            st["xcheck_checked"] += a_
+                            st["xcheck_agree"] += b_
+                            st["xcheck_unknown"] += c_
+                            st["xcheck_disagree"] += d_
+                        if n.startswith("cvc5-disagrees:"):
+                            herrors.append(dict(harness=hname, params=params, message="cvc5 returns sat on an obligation z3 discharged: " + n[15:]))
                     if d["status"] == "harness_error":
                         herrors.append(dict(harness=hname, params=params, message=d["message"]))
                     if d["status"] == "inconclusive":
@@ -501,6 +511,7 @@ def run_property(pid: str, tier: str, only=None, verbose=False) -> int:
             "harness_errors": [e["message"][:400] for e in herrors[:10]] + [f"unreproduced cex {v['harness']}:{v['obligation']} {v['replay'].get('why')}" for v in unreproduced[:10]]
             + [f"witness validation mismatch {m['harness']} {m.get('obligation', '')} {m['detail'][:200]}" for m in mismatches[:10]] + [f"reachability twin not met: {m}" for m in missing_reach],
             "known_findings": sorted(printed),
+            "cvc5_crosscheck": {k[7:]: int(v) for k, v in total.items() if k.startswith("xcheck_")},
             "stubs": getattr(mod, "STUBS", []),
             "outside_claim": getattr(mod, "OUTSIDE", []),
             "exit_code": code,
